@@ -412,12 +412,47 @@ where
     }
 }
 
-/// Run `f` on every item as independent jobs of the current pool.
-fn for_each_items<T: Send, F: Fn(T) + Sync + Send>(items: Vec<T>, f: F) {
-    let n = items.len();
-    if n == 0 {
+/// Leaves of rayon's recursive halving with a minimum length: a range is split in the middle
+/// while both halves keep at least `min` items (the thread-count splitter is ignored, i.e. the
+/// finest splitting rayon can reach; coarser ones are sub-cases for safety properties).
+fn leaves<T>(items: Vec<T>, min: usize, max: usize) -> Vec<Vec<T>> {
+    fn rec<T>(mut v: Vec<T>, min: usize, max: usize, out: &mut Vec<Vec<T>>) {
+        let len = v.len();
+        if len / 2 >= min.max(1) && len > 1 {
+            let right = v.split_off(len / 2);
+            rec(v, min, max, out);
+            rec(right, min, max, out);
+        } else if len > max && len > 1 {
+            let right = v.split_off(len / 2);
+            rec(v, min, max, out);
+            rec(right, min, max, out);
+        } else {
+            out.push(v);
+        }
+    }
+    let mut out = Vec::new();
+    rec(items, min, max, &mut out);
+    out
+}
+
+/// Run `f` on every item; leaves of the splitting are independent jobs of the current pool.
+fn for_each_items<T: Send, F: Fn(T) + Sync + Send>(items: Vec<T>, min: usize, max: usize, f: F) {
+    if items.is_empty() {
         return;
     }
+    if min > 1 || max < items.len() {
+        let chunks = leaves(items, min, max);
+        return for_each_jobs(chunks, |c: Vec<T>| {
+            for it in c {
+                f(it);
+            }
+        });
+    }
+    for_each_jobs(items, f)
+}
+
+fn for_each_jobs<T: Send, F: Fn(T) + Sync + Send>(items: Vec<T>, f: F) {
+    let n = items.len();
     if !detsim::in_sim() || n == 1 {
         stats::FOR_EACH_INLINE.fetch_add(1, Ordering::Relaxed);
         for it in items {
@@ -429,7 +464,7 @@ fn for_each_items<T: Send, F: Fn(T) + Sync + Send>(items: Vec<T>, f: F) {
         Some((p, _)) => p,
         None => {
             let g = global_pool();
-            return install_in(&g, move || for_each_items(items, f));
+            return install_in(&g, move || for_each_jobs(items, f));
         }
     };
     stats::FOR_EACH_PAR.fetch_add(1, Ordering::Relaxed);
@@ -466,29 +501,59 @@ pub mod iter {
 
     pub trait ParallelIterator: Sized {
         type Item: Send;
-        fn into_items(self) -> Vec<Self::Item>;
+        fn into_parts(self) -> (Vec<Self::Item>, usize, usize);
+
+        fn into_items(self) -> Vec<Self::Item> {
+            self.into_parts().0
+        }
 
         fn for_each<F>(self, f: F)
         where
             F: Fn(Self::Item) + Sync + Send,
         {
-            for_each_items(self.into_items(), f)
+            let (items, min, max) = self.into_parts();
+            for_each_items(items, min, max, f)
         }
 
         fn enumerate(self) -> Items<(usize, Self::Item)> {
-            Items(self.into_items().into_iter().enumerate().collect())
+            let (items, min, max) = self.into_parts();
+            Items { v: items.into_iter().enumerate().collect(), min, max }
+        }
+
+        fn with_min_len(self, min: usize) -> Items<Self::Item> {
+            let (v, m0, max) = self.into_parts();
+            Items { v, min: m0.max(min), max }
+        }
+
+        fn with_max_len(self, max: usize) -> Items<Self::Item> {
+            let (v, min, m0) = self.into_parts();
+            Items { v, min, max: m0.min(max.max(1)) }
+        }
+
+        fn count(self) -> usize {
+            self.into_parts().0.len()
         }
     }
 
     pub trait IndexedParallelIterator: ParallelIterator {}
     impl<T: ParallelIterator> IndexedParallelIterator for T {}
 
-    pub struct Items<T>(pub(crate) Vec<T>);
+    pub struct Items<T> {
+        pub(crate) v: Vec<T>,
+        pub(crate) min: usize,
+        pub(crate) max: usize,
+    }
+
+    impl<T> Items<T> {
+        pub(crate) fn new(v: Vec<T>) -> Items<T> {
+            Items { v, min: 1, max: usize::MAX }
+        }
+    }
 
     impl<T: Send> ParallelIterator for Items<T> {
         type Item = T;
-        fn into_items(self) -> Vec<T> {
-            self.0
+        fn into_parts(self) -> (Vec<T>, usize, usize) {
+            (self.v, self.min, self.max)
         }
     }
 
@@ -498,11 +563,19 @@ pub mod iter {
         fn into_par_iter(self) -> Self::Iter;
     }
 
+    impl<T: Send> IntoParallelIterator for Items<T> {
+        type Item = T;
+        type Iter = Items<T>;
+        fn into_par_iter(self) -> Items<T> {
+            self
+        }
+    }
+
     impl<T: Send> IntoParallelIterator for Vec<T> {
         type Item = T;
         type Iter = Items<T>;
         fn into_par_iter(self) -> Items<T> {
-            Items(self)
+            Items::new(self)
         }
     }
 
@@ -510,7 +583,7 @@ pub mod iter {
         type Item = &'a mut T;
         type Iter = Items<&'a mut T>;
         fn into_par_iter(self) -> Items<&'a mut T> {
-            Items(self.iter_mut().collect())
+            Items::new(self.iter_mut().collect())
         }
     }
 
@@ -518,7 +591,7 @@ pub mod iter {
         type Item = &'a T;
         type Iter = Items<&'a T>;
         fn into_par_iter(self) -> Items<&'a T> {
-            Items(self.iter().collect())
+            Items::new(self.iter().collect())
         }
     }
 
@@ -526,7 +599,7 @@ pub mod iter {
         type Item = &'a mut T;
         type Iter = Items<&'a mut T>;
         fn into_par_iter(self) -> Items<&'a mut T> {
-            Items(self.iter_mut().collect())
+            Items::new(self.iter_mut().collect())
         }
     }
 
@@ -534,7 +607,7 @@ pub mod iter {
         type Item = &'a T;
         type Iter = Items<&'a T>;
         fn into_par_iter(self) -> Items<&'a T> {
-            Items(self.iter().collect())
+            Items::new(self.iter().collect())
         }
     }
 
@@ -542,7 +615,7 @@ pub mod iter {
         type Item = usize;
         type Iter = Items<usize>;
         fn into_par_iter(self) -> Items<usize> {
-            Items(self.collect())
+            Items::new(self.collect())
         }
     }
 
@@ -581,9 +654,54 @@ pub mod iter {
     }
 }
 
+pub mod slice {
+    use crate::iter::Items;
+
+    pub trait ParallelSliceMut<T: Send> {
+        fn as_parallel_slice_mut(&mut self) -> &mut [T];
+
+        fn par_chunks_mut(&mut self, n: usize) -> Items<&mut [T]> {
+            assert!(n != 0, "chunk_size must not be zero");
+            Items::new(self.as_parallel_slice_mut().chunks_mut(n).collect())
+        }
+
+        fn par_chunks_exact_mut(&mut self, n: usize) -> Items<&mut [T]> {
+            assert!(n != 0, "chunk_size must not be zero");
+            Items::new(self.as_parallel_slice_mut().chunks_exact_mut(n).collect())
+        }
+    }
+
+    impl<T: Send> ParallelSliceMut<T> for [T] {
+        fn as_parallel_slice_mut(&mut self) -> &mut [T] {
+            self
+        }
+    }
+
+    pub trait ParallelSlice<T: Sync> {
+        fn as_parallel_slice(&self) -> &[T];
+
+        fn par_chunks(&self, n: usize) -> Items<&[T]> {
+            assert!(n != 0, "chunk_size must not be zero");
+            Items::new(self.as_parallel_slice().chunks(n).collect())
+        }
+
+        fn par_chunks_exact(&self, n: usize) -> Items<&[T]> {
+            assert!(n != 0, "chunk_size must not be zero");
+            Items::new(self.as_parallel_slice().chunks_exact(n).collect())
+        }
+    }
+
+    impl<T: Sync> ParallelSlice<T> for [T] {
+        fn as_parallel_slice(&self) -> &[T] {
+            self
+        }
+    }
+}
+
 pub mod prelude {
     pub use crate::iter::{
         IndexedParallelIterator, IntoParallelIterator, IntoParallelRefIterator,
         IntoParallelRefMutIterator, ParallelIterator,
     };
+    pub use crate::slice::{ParallelSlice, ParallelSliceMut};
 }
